@@ -53,7 +53,8 @@ Definition add_meta (meta : list (string * list string)) (h : hdrs) : hdrs :=
 
 (* ---- inputs ---- *)
 Inductive impl := Gin | Mux | MuxEngine.   (* MuxEngine: the mux handler behind BasicEngine *)
-Inductive render := RJson | RNoop | RString | RCollection.
+Inductive render := RJson | RNoop | RString | RCollection
+                  | RXml | RYaml.            (* registered by the gin package only *)
 
 Record resp := mk_resp {
   r_data : option obj;                       (* None: nil map *)
@@ -87,7 +88,8 @@ Record input := mk_input {
 }.
 
 (* ---- outputs: the projection the property speaks of ---- *)
-Inductive body := BJson (v : json) | BRaw (s : string).
+(* BOther: a serialisation the model does not describe (XML, YAML) *)
+Inductive body := BJson (v : json) | BRaw (s : string) | BOther.
 Record reply := mk_reply {
   o_status : Z;
   o_completed : list string;                 (* values of X-Krakend-Completed, in order *)
@@ -179,6 +181,7 @@ Definition gin_render (i : input) (h : hdrs) : outcome :=
   | RJson => project 200 h (BJson (json_of (i_resp i)))
   | RString => project 200 h (BRaw (string_content (i_resp i)))
   | RCollection => project 200 h (BJson (collection (i_resp i)))
+  | RXml | RYaml => project 200 h BOther     (* c.XML / c.YAML with the status so far *)
   | RNoop =>
       match i_resp i with
       | None => project 500 h (BRaw "")
@@ -212,6 +215,8 @@ Definition mux_render (engine : bool) (i : input) (h : hdrs) : outcome :=
   | RJson => project 200 h (BJson (json_of (i_resp i)))       (* implicit WriteHeader(200) *)
   | RString => project 200 h (BRaw (string_content (i_resp i)))
   | RCollection => project 200 h (BJson (collection (i_resp i)))
+  | RXml | RYaml => project 200 h BOther     (* not registered in the mux package: get_render
+                                                never selects them there (C11_mux_renders) *)
   | RNoop =>
       match i_resp i with
       | None => http_error engine "" 500 h
@@ -252,6 +257,36 @@ Definition handler (i : input) : outcome :=
   | MuxEngine => mux_handler true i
   end.
 
+(* ---- which render serves an endpoint: getRender / getWithFallback / renderRegister of
+   router/gin/render.go and router/mux/render.go, and gin's negotiated render ---- *)
+Inductive rname := NRender (r : render) | NNegotiate.
+Definition registered (im : impl) (name : string) : option rname :=
+  if str_eqb name "string" then Some (NRender RString)          (* encoding.STRING *)
+  else if str_eqb name "json" then Some (NRender RJson)         (* encoding.JSON *)
+  else if str_eqb name "no-op" then Some (NRender RNoop)        (* encoding.NOOP *)
+  else if str_eqb name "json-collection" then Some (NRender RCollection)
+  else match im with
+       | Gin => if str_eqb name "xml" then Some (NRender RXml)
+                else if str_eqb name "yaml" then Some (NRender RYaml)
+                else if str_eqb name "negotiate" then Some NNegotiate
+                else None
+       | _ => None
+       end.
+Definition with_fallback (im : impl) (key : string) (fb : rname) : rname :=
+  match registered im key with Some r => r | None => fb end.
+(* fallback: json, or the encoding of the ONLY backend; then the endpoint's output_encoding *)
+Definition get_render (im : impl) (output : string) (backends : list string) : rname :=
+  let fb := match backends with [e] => with_fallback im e (NRender RJson) | _ => NRender RJson end in
+  if str_eqb output "" then fb else with_fallback im output fb.
+(* what c.NegotiateFormat(JSON, Plain, XML, YAML) makes of the Accept header *)
+Inductive accept := AcNone | AcJson | AcPlain | AcXml | AcYaml | AcOther.
+Definition negotiate (a : accept) : render :=
+  match a with AcXml => RXml | AcPlain | AcYaml => RYaml | _ => RJson end.
+Definition resolve (n : rname) (a : accept) : render :=
+  match n with NRender r => r | NNegotiate => negotiate a end.
+Definition render_of_config (im : impl) (output : string) (backends : list string) (a : accept) : render :=
+  resolve (get_render im output backends) a.
+
 (* the same input without metadata headers: what the gateway writes on its own *)
 Definition strip_meta (i : input) : input :=
   {| i_impl := i_impl i; i_render := i_render i;
@@ -267,3 +302,159 @@ Definition meta_vals (k : string) (meta : list (string * list string)) : list st
   flat_map (fun kv => if str_eqb (canon (fst kv)) k then snd kv else []) meta.
 Definition meta_of (i : input) : list (string * list string) :=
   match i_resp i with Some r => r_meta r | None => [] end.
+
+(* ---- one layer down: the handlers as SEQUENCES OF WRITER OPERATIONS, and the writers ----
+   What reaches the client is the header map as it is when the status line is sent: the first
+   WriteHeader / Write on a net/http writer (httptest's recorder takes its snapshot there),
+   gin's responseWriter remembers c.Status(..) and sends it with the first Write or when the
+   chain ends.  A header set after that point would not be sent.  ops_of lists what each
+   handler and render does, in source order; exec runs the list against the writer. *)
+Inductive op :=
+| OSet (k v : string)                          (* Header().Set / c.Header *)
+| OSetAbsent (k v : string)                    (* gin renders: Content-Type unless present *)
+| ODel (k : string)
+| OAddMeta (meta : list (string * list string))
+| OStatus (code : Z)                           (* gin: c.Status - remembered, nothing sent *)
+| OWriteHeader (code : Z)                      (* explicit WriteHeader (through the interceptor) *)
+| OWrite (b : body).
+
+Record wstate := mk_w {
+  w_hdrs : hdrs;
+  w_pending : Z;                               (* gin's remembered status; 200 at the start *)
+  w_sent : option (Z * hdrs);                  (* status line sent: code and header snapshot *)
+  w_body : body;
+  w_once : bool                                (* the interceptor has seen a WriteHeader *)
+}.
+Definition w_init : wstate :=
+  {| w_hdrs := []; w_pending := 200; w_sent := None; w_body := BRaw ""; w_once := false |}.
+
+Definition set_hdrs (s : wstate) (h : hdrs) : wstate :=
+  {| w_hdrs := h; w_pending := w_pending s; w_sent := w_sent s; w_body := w_body s; w_once := w_once s |}.
+Definition send (s : wstate) (code : Z) : option wstate :=
+  match w_sent s with
+  | Some _ => Some s                            (* superfluous WriteHeader: ignored *)
+  | None => if valid_code code
+            then Some {| w_hdrs := w_hdrs s; w_pending := w_pending s; w_sent := Some (code, w_hdrs s);
+                         w_body := w_body s; w_once := w_once s |}
+            else None                           (* panic: invalid WriteHeader code *)
+  end.
+
+Definition hset_absent (k v : string) (h : hdrs) : hdrs :=
+  match lookup k h with Some (_ :: _) => h | _ => hset k v h end.
+Definition wstep (engine : bool) (s : wstate) (o : op) : option wstate :=
+  match o with
+  | OSet k v => Some (set_hdrs s (hset k v (w_hdrs s)))
+  | OSetAbsent k v => Some (set_hdrs s (hset_absent k v (w_hdrs s)))
+  | ODel k => Some (set_hdrs s (remove k (w_hdrs s)))
+  | OAddMeta m => Some (set_hdrs s (add_meta m (w_hdrs s)))
+  | OStatus c =>
+      Some (if (0 <? c)%Z && match w_sent s with None => true | Some _ => false end
+            then {| w_hdrs := w_hdrs s; w_pending := c; w_sent := w_sent s; w_body := w_body s; w_once := w_once s |}
+            else s)
+  | OWriteHeader c =>
+      let s1 := if engine && negb (w_once s)
+                then {| w_hdrs := if (c =? 200)%Z then w_hdrs s else hset H_completed V_false (w_hdrs s);
+                        w_pending := w_pending s; w_sent := w_sent s; w_body := w_body s; w_once := true |}
+                else s in
+      send s1 c
+  | OWrite b =>
+      match send s (w_pending s) with
+      | Some s1 => Some {| w_hdrs := w_hdrs s1; w_pending := w_pending s1; w_sent := w_sent s1;
+                           w_body := b; w_once := w_once s1 |}
+      | None => None
+      end
+  end.
+Fixpoint wrun (engine : bool) (s : wstate) (ops : list op) : option wstate :=
+  match ops with
+  | [] => Some s
+  | o :: r => match wstep engine s o with Some s1 => wrun engine s1 r | None => None end
+  end.
+(* the chain ends: gin sends the remembered status; the recorder reports 200 and the map *)
+Definition wfinish (s : option wstate) : outcome :=
+  match s with
+  | None => Panic
+  | Some s =>
+      match send s (w_pending s) with
+      | Some s1 => match w_sent s1 with
+                   | Some (code, snap) => project code snap (w_body s1)
+                   | None => Panic
+                   end
+      | None => Panic
+      end
+  end.
+Definition exec (engine : bool) (ops : list op) : outcome := wfinish (wrun engine w_init ops).
+
+Definition CT : string := "Content-Type".
+(* gin: operations of the handler before the render or the error exit *)
+Definition gin_pre_ops (i : input) : list op :=
+  [OSet H_version (i_ver i)] ++
+  match i_resp i with
+  | Some r => if nonempty r
+              then (if r_complete r && cache_enabled (i_ttl i) then [OSet H_cache (cache_value (i_ttl i))] else [])
+                   ++ [OAddMeta (r_meta r)]
+              else []
+  | None => []
+  end ++
+  [OSet H_completed (if cond i then V_true else V_false)].
+Definition io_ops (r : resp) : list op :=
+  match r_io r with Some s => [OWrite (BRaw s)] | None => [] end.
+Definition gin_render_ops (i : input) : list op :=
+  match i_render i with
+  | RJson => [OSetAbsent CT "application/json; charset=utf-8"; OWrite (BJson (json_of (i_resp i)))]
+  | RString => [OSetAbsent CT "text/plain; charset=utf-8"; OWrite (BRaw (string_content (i_resp i)))]
+  | RCollection => [OSetAbsent CT "application/json; charset=utf-8"; OWrite (BJson (collection (i_resp i)))]
+  | RXml => [OSetAbsent CT "application/xml; charset=utf-8"; OWrite BOther]
+  | RYaml => [OSetAbsent CT "application/x-yaml; charset=utf-8"; OWrite BOther]
+  | RNoop => match i_resp i with
+             | None => [OStatus 500]
+             | Some r => [OAddMeta (r_meta r); OStatus (r_status r)] ++ io_ops r
+             end
+  end.
+Definition gin_ops (i : input) : list op :=
+  gin_pre_ops i ++
+  match eff_err i, i_resp i with
+  | Some e, None => [OStatus (err_status i e)]
+  | _, _ => gin_render_ops i
+  end.
+
+Definition http_error_ops (msg : string) (code : Z) : list op :=
+  [ODel "Content-Length"; OSet CT "text/plain; charset=utf-8"; OSet "X-Content-Type-Options" "nosniff";
+   OWriteHeader code; OWrite (BRaw (msg ++ nl))].
+Definition mux_render_ops (i : input) : list op :=
+  match i_render i with
+  | RJson => [OSet CT "application/json"; OWrite (BJson (json_of (i_resp i)))]
+  | RString => [OSet CT "text/plain"; OWrite (BRaw (string_content (i_resp i)))]
+  | RCollection => [OSet CT "application/json"; OWrite (BJson (collection (i_resp i)))]
+  | RXml | RYaml => [OWrite BOther]
+  | RNoop => match i_resp i with
+             | None => http_error_ops "" 500
+             | Some r => [OAddMeta (r_meta r)] ++
+                         (if (r_status r =? 0)%Z then [] else [OWriteHeader (r_status r)]) ++ io_ops r
+             end
+  end.
+Definition mux_ops (i : input) : list op :=
+  [OSet H_version (i_ver i)] ++
+  match i_resp i with
+  | Some r =>
+      if nonempty r then
+        (if r_complete r
+         then [OSet H_completed V_true] ++
+              (if cache_enabled (i_ttl i) then [OSet H_cache (cache_value (i_ttl i))] else [])
+         else [OSet H_completed V_false]) ++
+        [OAddMeta (r_meta r)] ++ mux_render_ops i
+      else [OSet H_completed V_false] ++
+           match eff_err i with
+           | Some e => http_error_ops (e_msg e) (err_status i e)
+           | None => mux_render_ops i
+           end
+  | None => [OSet H_completed V_false] ++
+            match eff_err i with
+            | Some e => http_error_ops (e_msg e) (err_status i e)
+            | None => mux_render_ops i
+            end
+  end.
+Definition ops_of (i : input) : list op :=
+  match i_impl i with Gin => gin_ops i | _ => mux_ops i end.
+Definition is_engine (i : input) : bool := match i_impl i with MuxEngine => true | _ => false end.
+(* the trace-level model of the whole handler *)
+Definition handler_ops (i : input) : outcome := exec (is_engine i) (ops_of i).
